@@ -1395,8 +1395,8 @@ def init_product_prog(par, nsd, init_classes, targets, nk=2):
         bad = [a for a in owners if not anc(par, a, t)]
         follows = [[]]
         if good:
-            follows += [[N(good[0], [v + 20 for v in nsd[good[0]]])],
-                        [N(good[-1], list(nsd[good[-1]])), N(good[0], [v + 21 for v in nsd[good[0]]])]]
+            follows.append([N(good[-1], list(nsd[good[-1]])), N(good[0], [v + 21 for v in nsd[good[0]]])] if len(good) > 1
+                           else [N(good[0], [v + 20 for v in nsd[good[0]]])])
         if bad:
             follows.append([N(bad[0], [v + 30 for v in nsd[bad[0]]])])
         for x in inits:
@@ -1652,6 +1652,11 @@ def evaluate(cases, tag="c16", want_diag=False):
         for idx, code in bad:
             codes[nsps[idx][0]] = code
     if progs:
+        # balance the shards: the cost of a program grows with the square of its length (every live set is dumped after every
+        # operation); deal the programs, longest first, round-robin over the shards
+        nsh = -(-len(progs) // 24)
+        progs.sort(key=lambda it: (-len(cases[it[0]]["ops"]), it[0]))
+        progs = [p for k in range(nsh) for p in progs[k::nsh]]
         bad, errs = core.coq_shards(tag, HEADER, [t for _, t in progs], "tcase", "bad cases", shard=24)
         errors += errs
         for idx, code in bad:
@@ -2087,13 +2092,14 @@ def run(ctx):
         # its own stream: the product (kind of initial set) x (its class relation to the target) x (what follows), and
         # render class statements listing plain mix-in classes (the program family on them + the MRO / hierarchy probe)
         xrng = random.Random(rrng.getrandbits(64) ^ 0x3F)
-        cases += list(INIT_CORPUS) + list(MIX_PROG_CORPUS) + list(NSMIX_CORPUS)
-        cases += [gen_initprod(xrng) for _ in range(4 if ctx.quick else 150)]
-        for i in range(20 if ctx.quick else 600):
+        if os.environ.get("VERIF_C16_TMP_NOSHAPE") != "1":
+          cases += list(INIT_CORPUS) + list(MIX_PROG_CORPUS) + list(NSMIX_CORPUS)
+          cases += [gen_initprod(xrng) for _ in range(3 if ctx.quick else 150)]
+          for i in range(12 if ctx.quick else 600):
             c = gen_prog(xrng, 12 if i % 3 else 6)
             c["mix"] = gen_mix(xrng, c["par"])
             cases.append(c)
-        cases += [gen_nsmix(xrng) for _ in range(14 if ctx.quick else 400)]
+          cases += [gen_nsmix(xrng) for _ in range(10 if ctx.quick else 400)]
         if os.environ.get("VERIF_C16_INIT_FAMILY") == "1":
             # NOT part of the registered check: the initial-set argument with virtual subclassing (see
             # pending_fixes/C16_virtual_subclass_init_render_args.*)
